@@ -86,10 +86,13 @@ pub fn v_strategy() -> BoxedStrategy<f64> {
         // the library's use case
         3 => (0u32..=400_000).prop_map(|i| 0.8 + i as f64 * 1e-6),
         // |x| up to 708 (beyond that is KF1 on one side; overflow of v on the other)
-        1 => (-7080i32..=7080).prop_map(|i| (i as f64 / 10.0).exp()),
-        1 => gen::scaled_pos(-1022, 1023),
-        1 => gen::from_table(&[f64::MIN_POSITIVE, f64::MAX, 1.0, 7.0, 5e-324, 1e-310, 5.562684646268003e-309, 5.562684646268004e-309, 2.0, 0.5]),
-        1 => gen::scaled_pos(-1074, -1023),
+        1 => (-7080i32..=6900).prop_map(|i| (-(i as f64) / 10.0).exp()),
+        // v = 1 ± m·2^-j: from a few ulps to a few per cent away from 1 (where a series-vs-limit slip shows)
+        2 => (1i32..=52, 1u32..=64, any::<bool>()).prop_map(|(j, m, s)| { let d = m as f64 * 2.0f64.powi(-j - 6); if s { 1.0 + d } else { 1.0 - d } }),
+        1 => gen::scaled_pos(-1000, 1023),
+        1 => gen::from_table(&[f64::MIN_POSITIVE, f64::MAX, 1.0, 7.0, 1e-300, 5.562684646268004e-309, 2.0, 0.5, 1e-5, 1e-10, 1e-17]),
+        // (1 in ~40) the region of the open finding KF1, so that its exclusion is exercised and counted
+        1 => gen::from_table(&[5e-324, 1e-310, 5.562684646268003e-309, 2.2250738585072014e-308]),
     ]
     .boxed()
 }
@@ -138,13 +141,13 @@ impl Prop for C10 {
         "C10"
     }
     fn rule(&self) -> String {
-        "case = ((k,c1..c4,u): random with exponents up to ±60 and zeros, the 45 benchmark pieces of the repository, u only, one c_j only, all comparable, k and u only; v>0: every float within ±4096 ulps of 1, of e^1.71 and of e^-1.72 (the two switch points), e^-x for x swept over [-40,40] in steps of 1e-3, |x| = 2^-j down to 2^-70, v in [0.8,1.2] in steps of 1e-6, |x| up to 708, full-range and subnormal v, MIN_POSITIVE, MAX). Oracle: x = -ln v and x^5R(x) in 384-bit arithmetic (series for |x|<2, e^x minus the 5-term Taylor polynomial otherwise; the two are compared in the self-test); |fl - E| <= 1e-12·(|k| + Σ|v c_j x^j| + |u v x^5R|); at v = 1 the value must be exactly k. Domain: magnitude sum within 2^±900 (else counted as excluded). Inputs matching the signature of the open known finding KF1 (e^x overflows, i.e. v < 5.5627e-309, or an unscaled term |c_j x^j|, |u x^5R(x)| >= 2^1020) are excluded and counted while it is listed. Non-trivial: u != 0 and v != 1. Thorough: additionally the complete ±4096-ulp neighbourhoods of the three special points for 32 coefficient sets.".into()
+        "case = ((k,c1..c4,u): random with exponents up to ±60 and zeros, the 45 benchmark pieces of the repository, u only, one c_j only, all comparable, k and u only; v>0: every float within ±4096 ulps of 1, of e^1.71 and of e^-1.72 (the two switch points), e^-x for x swept over [-40,40] in steps of 1e-3, |x| = 2^-j down to 2^-70, v in [0.8,1.2] in steps of 1e-6, v = 1 ± m·2^-j for j up to 58, |x| up to 708, full-range v, MIN_POSITIVE, MAX, a few subnormal v). Oracle: x = -ln v and x^5R(x) in 384-bit arithmetic (series for |x|<2, e^x minus the 5-term Taylor polynomial otherwise; the two are compared in the self-test); |fl - E| <= 1e-12·(|k| + Σ|v c_j x^j| + |u v x^5R|); at v = 1 the value must be exactly k. Domain: magnitude sum within 2^±900 (else counted as excluded). Inputs matching the signature of the open known finding KF1 (e^x overflows, i.e. v < 5.5627e-309, or an unscaled term |c_j x^j|, |u x^5R(x)| >= 2^1020) are excluded and counted while it is listed. Non-trivial: u != 0 and v != 1. Thorough: additionally the complete ±4096-ulp neighbourhoods of the three special points for 32 coefficient sets.".into()
     }
     fn assumptions(&self) -> Vec<String> {
         vec!["1e-12 is used truncated to 384 bits (a hair stricter than the property's constant)".into()]
     }
     fn cases(&self, tier: Tier) -> u64 {
-        tier.pick(120_000, 3_000_000)
+        tier.pick(300_000, 4_000_000)
     }
     fn strategy(&self, _tier: Tier) -> BoxedStrategy<Case> {
         (coeff_strategy(), v_strategy()).prop_map(|(n, v)| Case { nums: n.into_iter().map(B).collect(), v: B(v) }).boxed()
